@@ -432,7 +432,90 @@ fn tracked_inputs(rng: &mut Rng) -> Vec<u8> {
     b
 }
 
+/// Seed corpus for the libFuzzer stage: valid encodings of every subject type and random trees.
+fn dump_seed_corpus(a: &Args, dir: &str) {
+    std::fs::create_dir_all(dir).expect("seed corpus dir");
+    let mut rng = Rng::derive("c02/seedcorpus", a.seed, 0, 0);
+    let mut k = 0usize;
+    let mut put = |b: &[u8]| {
+        if b.len() <= 512 {
+            let _ = std::fs::write(format!("{}/seed-{:05}", dir, k), b);
+            k += 1;
+        }
+    };
+    macro_rules! m {
+        ($t:ty) => {
+            for _ in 0..4 {
+                let v = <$t as Subject>::gen(&mut rng);
+                if let Ok(b) = minicbor::to_vec(&v) {
+                    put(&b)
+                }
+            }
+        };
+    }
+    for_each_subject!(m);
+    for i in 0..400 {
+        put(&corpus::random_tree("c02/seedtree", a.seed, i, true).0.encode());
+        put(&tracked_inputs(&mut rng));
+    }
+}
+
+/// Replay of what the libFuzzer stage produced (evolved corpus and crash / timeout / oom
+/// artifacts) through all monitors.  `--dir` = directory of input files.
+fn run_fuzzreplay(a: &Args, rep: &mut Report) {
+    let cx = Cx { entries: entries() };
+    let opsv = ops();
+    let dir = a.extra("dir").unwrap_or("").to_string();
+    let mut files: Vec<std::path::PathBuf> = match std::fs::read_dir(&dir) {
+        Ok(rd) => rd.filter_map(|e| e.ok().map(|e| e.path())).filter(|p| p.is_file()).collect(),
+        Err(e) => {
+            rep.inconclusive.push(format!("cannot read {}: {}", dir, e));
+            return;
+        }
+    };
+    files.sort();
+    for (i, f) in files.iter().enumerate() {
+        if !a.mine(i as u64) {
+            continue;
+        }
+        let input = match std::fs::read(f) {
+            Ok(b) => b,
+            Err(_) => continue,
+        };
+        let before = rep.violation_count();
+        rep.seen(fnv64(&input));
+        mon::set_case(&input[..input.len().min(200)]);
+        check_input(&cx, rep, &input, None);
+        check_call_sequence(rep, &opsv, a.seed, i as u64, &input);
+        let name = f.file_name().map(|s| s.to_string_lossy().to_string()).unwrap_or_default();
+        let kind = name.split('-').next().unwrap_or("");
+        if matches!(kind, "crash" | "timeout" | "oom" | "leak") {
+            rep.count(&format!("libfuzzer artifact/{}", kind));
+            if rep.violation_count() > before {
+                rep.count(&format!("libfuzzer artifact/{} reproduced by the monitors", kind));
+            } else {
+                rep.notes.push(format!("ARTIFACT-NOT-REPRODUCED {} {}", kind, name));
+            }
+        }
+        if rep.want_sample() && input.len() > 6 && input.len() < 40 {
+            rep.sample(J::obj().with("fuzzer_corpus_input", J::s(hex(&input))));
+        }
+        if i & 0xff == 0 {
+            mon::tick()
+        }
+    }
+    rep.count_n("libfuzzer corpus files replayed", files.iter().enumerate().filter(|(i, _)| a.mine(*i as u64)).count() as u64);
+}
+
 pub fn run(a: &Args, rep: &mut Report) {
+    if a.tier == "seedcorpus" {
+        dump_seed_corpus(a, a.extra("dir").unwrap_or("seedcorpus"));
+        rep.evaluations += 1;
+        return;
+    }
+    if a.tier == "fuzzreplay" {
+        return run_fuzzreplay(a, rep);
+    }
     let cx = Cx { entries: entries() };
     rep.note(format!("{} entry points", cx.entries.len()));
     let opsv = ops();
